@@ -371,6 +371,9 @@ func c11(c *ctx) {
 	for m := 0; m <= 3; m++ {
 		c11session(c, m, rounds)
 	}
+	for m := 1; m <= 3; m++ {
+		c11conn(c, m, rounds/3)
+	}
 	o.sample("c11.flip pos=12 bit=0 -> accept ... c=1 (closing flag flipped on an AEAD frame): the open finding; every other position -> reject errAuth")
 	o.sample("garbage of length 0..20480 x 4 methods into deobfuscate and into recvDataFromRemote of a live session, then a valid frame is delivered")
 }
